@@ -29,7 +29,7 @@
 EXTENDS LdpcIt
 
 VARIABLES fin        \* "none" | record of the finish call: [st, nulldest, badindex]
-mvars == <<pt, tab, M, unk, deg, ct, nrep, rcvd, nullderef, fin>>
+mvars == <<pt, tab, M, unk, deg, ct, nrep, led, rcvd, nullderef, fin>>
 
 OK == 0
 FAILURE == 1
@@ -150,7 +150,7 @@ MRecv(e) == fin = NoFin /\ Recv(e) /\ UNCHANGED fin
 MFinish(perm) ==
     /\ fin = NoFin
     /\ LET f == FinishRec(pt, StateRec, perm)
-       IN  /\ tab' = f.st.tab /\ M' = f.st.M /\ unk' = f.st.unk /\ deg' = f.st.deg /\ ct' = f.st.ct /\ nrep' = f.st.nrep
+       IN  /\ tab' = f.st.tab /\ M' = f.st.M /\ unk' = f.st.unk /\ deg' = f.st.deg /\ ct' = f.st.ct /\ nrep' = f.st.nrep /\ led' = f.st.led
            /\ nullderef' = f.st.bad
            /\ fin' = [st |-> f.status, nulldest |-> f.nulldest, badindex |-> f.badindex, stage |-> f.stage]
     /\ UNCHANGED <<pt, rcvd>>
